@@ -169,7 +169,7 @@ def run(tier, seed, t0):
         tf = os.path.join(work, "trace.ndjson")
         core.write_ndjson(tf, rows)
         exp = core.validate("Trace_Gates", "Expect", tf, work, constants=VC, timeout=3000)["rows"]
-        rejected, clauses = [], Counter()
+        rejected, clauses = core.track([]), Counter()
         max_ok, min_bad = 0.0, None
         for t, o, e in zip(rows, obs, exp):
             what = qadapt.describe(t["c"]) + (" rewire(%d,%d) on %d" % (t["a"], t["b"], t["n"]) if t["kind"] == "rewire" else "")
